@@ -6,6 +6,7 @@ verus! {
 global size_of usize == 8;
 //@include common/error.rs.inc
 //@include common/wordid_stub.rs.inc
+//@include common/category_type.rs.inc
 //@extract sudachi/src/analysis/inner.rs :: struct Node
 //@  derive Clone
 //@end
@@ -52,6 +53,12 @@ impl InputBuffer {
     fn cat_continuous_len(&self, offset: usize) -> (r: usize)
         requires offset < self.sp_nch()
         ensures r == self.sp_cont(offset as int), r <= 65535
+    { unimplemented!() }
+    pub uninterp spec fn sp_cat_at(&self, c: int) -> CategoryType;
+    #[verifier::external_body]
+    fn cat_at_char(&self, offset: usize) -> (r: CategoryType)
+        requires offset < self.sp_nch()
+        ensures r == self.sp_cat_at(offset as int)
     { unimplemented!() }
     #[verifier::external_body]
     fn current_chars(&self) -> (r: &[char]) ensures r@.len() == self.sp_nch() { unimplemented!() }
@@ -123,6 +130,7 @@ spec fn regex_candidate(p: RegexOovProvider, t: InputBuffer, offset: int, other:
 impl RegexOovProvider {
 // R11: `impl OovProviderPlugin for RegexOovProvider { fn provide_oov }` checked as an inherent fn of the same body
 //@extract sudachi/src/plugin/oov/regex_oov/mod.rs :: impl OovProviderPlugin for RegexOovProvider :: fn provide_oov
+//@  twin
 //@  rw R17o 1 custom
 //@  | let regex = self\s*\.regex\s*\.as_ref\(\)\s*\.ok_or_else\(\|\| SudachiError::InvalidDictionaryGrammar\)\?;
 //@  > let regex = match self.regex.as_ref() { Some(__r) => __r, None => { return Err(SudachiError::InvalidDictionaryGrammar); } };
